@@ -5,10 +5,10 @@ ROOT = os.path.dirname(os.path.dirname(os.path.abspath(__file__)))
 
 claimed = {
  "C02": ("fault_enumeration", "4 C02",
-   "Seeded histories over the whole safe API of Map and Set (ten element shapes, capacities 0..32) with every cancellation point of every consuming iterator / drain / entry enumerated (j = 0..=len x {exhaust, drop, mem::forget}) and relocation of the container value between steps; a per-object ledger checks after every step that each key/value object is in exactly one place and is destroyed exactly once, and that no callback or return value ever denotes a dead or never-initialised (0xA5-poisoned) slot. Thorough adds a Miri batch of the same plans.",
+   "Seeded histories over the whole safe API of Map and Set (ten element shapes, capacities 0..64 and 300) with every cancellation point of every consuming iterator / drain / entry enumerated (j = 0..=len x {exhaust, drop, mem::forget}) and relocation of the container value between steps; a per-object ledger checks after every step that each key/value object is in exactly one place and is destroyed exactly once, and that no callback or return value ever denotes a dead or never-initialised (0xA5-poisoned) slot. Thorough adds Miri batches of the same plans (host target, 32-bit i686 and big-endian s390x).",
    "deterministic simulation: seeded histories + enumerated cancellation points (drop / mem::forget) with an object-ledger oracle"),
  "C03": ("fault_enumeration", "4 C03",
-   "Resource exhaustion as the injected fault: seeded histories are steered into the full state along many paths and every safe insertion entry point (16 of them, bulk ones also with useless and incorrect size hints) is driven against it, in the release and the dev (debug-assertion) build of the same simulator, thorough also under AddressSanitizer and Miri; the oracle is did-it-panic, identity snapshot before/after, the ledger for the rejected key/value, canaries around the container, checked_insert's answer, replace-on-full.",
+   "Resource exhaustion as the injected fault: seeded histories are steered into the full state along many paths and every safe insertion entry point (16 of them, bulk ones also with useless and incorrect size hints) is driven against it, in the release and the dev (debug-assertion) build of the same simulator, thorough also under AddressSanitizer and Miri (host, 32-bit i686 and big-endian s390x targets); the oracle is did-it-panic, identity snapshot before/after, the ledger for the rejected key/value, canaries around the container, checked_insert's answer, replace-on-full.",
    "deterministic simulation: slot-exhaustion fault at every insertion entry point, in release, dev, ASan and Miri builds"),
  "C04": ("fault_enumeration", "4 C04",
    "For each seeded history a fault-free dry run counts the user callbacks (eq, borrow, clone, drop, predicate, closure, Default, source next/size_hint, Debug/Display, sink write) of each operation; the history is then re-run once per callback position with a panic injected exactly there (thorough: every operation of the history is the target in turn; a minority of runs carry 2-3 faults in different operations). After unwinding, the ledger, the well-formedness of every operand and an aftermath of further operations decide: no double destruction, no use of dead/uninitialised slots, survivors usable. Leaks caused by the faulted operation are tolerated, as the property allows.",
@@ -20,20 +20,20 @@ claimed = {
    "The global allocator is a seam: a counting wrapper whose window is armed around every micromap call made with non-allocating element shapes and the non-allocating fixed-buffer sink (all simulator callbacks pause it). Any allocator entry inside a non-panicking operation is a violation; every reference handed out must lie inside the bytes of the container value, also after the value was relocated. The no_std clause is decided by a build probe (library built with default features, rlib dependency listing must be core + compiler_builtins only) - declared as auxiliary, not simulation.",
    "deterministic simulation: allocator seam (count every request inside operation windows), address-range check; auxiliary no_std build probe"),
  "C10": ("fault_enumeration", "4 C10",
-   "For every sampled container state and every consuming iterator kind (into_iter, into_keys, into_values, drain, Set::into_iter, Set::drain) the cancellation point is enumerated (take j = 0..=len, then exhaust, drop, or let go through a provided Iterator method: fold, for_each, count, last, nth, find, skip, step_by, min_by_key, all); the oracle compares yielded identities with the identity snapshot taken through iter() before, checks len()/size_hint() before every step, None after the end, and that the drained container is empty and reusable.",
+   "For every sampled container state and every consuming iterator kind (into_iter, into_keys, into_values, drain, Set::into_iter, Set::drain) the cancellation point is enumerated (take j = 0..=len, then exhaust, drop, or let go through a provided Iterator method: fold, for_each, count, last, nth, find, skip, step_by, min_by_key, all); the oracle compares yielded identities with the identity snapshot taken through iter() before, checks len()/size_hint() before every step, None after the end, and that the drained container is empty and reusable - also when the destructor of an element still inside the drain panics while the drain is dropped (injected at the first destructor calls of that drop).",
    "deterministic simulation: enumerated cancellation point of every consuming iterator / drain, identity-snapshot + twin-order oracle"),
  "C16": ("exploration", "4 C16",
    "The source stream is a simulator-owned iterator that plays scripts (arbitrary repetition, lengths below/at/far above N) and chooses legal-but-unusual behaviour per run (lying size_hint of five kinds, non-fused end). Bulk construction (collect, From<[_;N]>, Set::extend by value and by reference) is compared differentially with one-by-one insert on the real container type, by (class, stored key tag, value tag); the pull log must be front-to-back exactly once; panics must agree with the one-by-one reference.",
    "deterministic simulation: scripted source stream with unusual size_hint / fusing behaviour, differential against one-by-one insertion on the real type"),
  "C17": ("exploration", "4 C17",
-   "Byzantine dependency: the outcome of every key and value comparison is chosen by the simulator from a recorded sub-seeded stream (always-true/false, random, flip, non-reflexive, asymmetric, truthful-then-lying, alternating, phase changes) and Borrow may hand out a different field than == uses. All safe operations run under it; the ledger (exactly-once destruction), len-vs-iteration, aliasing/bounds of get_disjoint_mut results and canaries decide. Thorough adds ASan and Miri batches.",
+   "Byzantine dependency: the outcome of every key and value comparison is chosen by the simulator from a recorded sub-seeded stream (always-true/false, random, flip, non-reflexive, asymmetric, truthful-then-lying, alternating, phase changes) and Borrow may hand out a different field than == uses. All safe operations run under it; the ledger (exactly-once destruction), len-vs-iteration, aliasing/bounds of get_disjoint_mut results and canaries decide. Thorough adds ASan and Miri batches (Miri also for 32-bit i686 and big-endian s390x).",
    "deterministic simulation: simulator-chosen outcome of every Eq/Borrow call, object-ledger + aliasing + bounds oracle"),
  "C19": ("fault_enumeration", "4 C19",
    "Formatting writes into a simulator-owned fmt::Write sink. Fault-free configuration: the text must equal std's debug_map/debug_set/list rendering (plain and alternate) of the entries seen through iter() / not yet yielded, for Map, Set and nine iterator kinds at every consumption prefix. Fault configuration: the failing write call is enumerated (w = 1..=W) and tiny buffers are used; formatting must never change the container or consume the iterator and must not panic on a sink error.",
    "deterministic simulation: sink write-error at every enumerated write call + exact-text oracle in the fault-free configuration"),
  "C20": ("exploration", "4 C20",
-   "The container is written to and read from a caller-supplied transport: (a) a simulator-owned token-level Serializer/Deserializer that records announced length and entries and replays them permuted, with lying size hints, into any target capacity >= len; (b) the real bincode codec over a byte buffer. Oracle: announced == len() == emitted entries (each one of the container's, once), decoded == original both ways and same (class, payload) set; source unchanged. Truncated / bit-flipped streams and serializer errors are injected as diagnostics under the ledger rules only.",
-   "deterministic simulation: simulator-owned serde transport (reordering, lying hints, capacity variation) + real bincode codec, round-trip oracle"),
+   "The container is written to and read from a caller-supplied transport: (a) a simulator-owned token-level Serializer/Deserializer that records announced length and entries and replays them permuted, with lying size hints, into any target capacity >= len; (b) the real bincode codec over a byte buffer; (c) the real serde_json codec (self-describing text that neither announces nor hints a length; read with from_slice, from_reader and through serde_json::Value, which delivers keys in lexicographic order with an exact hint), with the transport reordering, duplicating, truncating and bit-flipping the text. Oracle: announced == len() == emitted entries (each one of the container's, once), decoded == original both ways and same (class, payload) set; source unchanged. Truncated / bit-flipped streams and serializer errors are injected as diagnostics under the ledger rules only.",
+   "deterministic simulation: simulator-owned serde transport (reordering, lying hints, capacity variation) + real bincode and serde_json codecs, round-trip oracle"),
 }
 
 na = {
@@ -59,7 +59,7 @@ for pid, (cat, ref, text, tech) in claimed.items():
         "replay_cmd_template": "./check replay {path}",
         "engine": "microsim",
         "level_claimed": {"category": cat, "text": text, "design_ref": f"DESIGN.md section {ref}"},
-        "level_note": "Sampling, not proof: capacities <= 32 (256 for one C06 configuration), histories <= 24 operations, ten element shapes, one PRNG stream per VERIF_SEED. Trusted base: the simulator's own bookkeeping (ledger, snapshots through iter(), mirror rendering), rustc/std, and for native runs the 0xA5 poison hook as the detector of never-initialised slots; real UB detection only in the Miri/ASan batches of the thorough tier.",
+        "level_note": "Sampling, not proof: capacities <= 64 and 300 (256 for one C06 configuration), histories <= 24 operations, ten element shapes, one PRNG stream per VERIF_SEED. Trusted base: the simulator's own bookkeeping (ledger, snapshots through iter(), mirror rendering), rustc/std, and for native runs the 0xA5 poison hook as the detector of never-initialised slots; real UB detection only in the Miri/ASan batches of the thorough tier.",
         "technique": tech,
     })
 
